@@ -273,10 +273,56 @@ impl Prop for C11Prop {
         // the two outputs differ only in the counter digits of a leaked gensym'd name
         // (NAME_$_123): the evaluator's com defect (C01 entry) surfacing through the counter
         let det = v.case.get("detail")?;
+        // cldb vs the text `run` prints: the modern printer writes an atom that compile-time
+        // evaluation produced (Atom, not Integer) as a bare word when its bytes are printable, and
+        // the classic assembler reads a bare word that is an operator name as that operator:
+        // 102 is printed f and re-read as 5.  Excused only when the two programs differ at nothing
+        // but atoms where the re-assembled side holds the opcode whose NAME the other side spells.
+        if let (Some(rh), Some(ch)) = (det.get("run_hex").and_then(|h| h.as_str()), det.get("cldb_hex").and_then(|h| h.as_str())) {
+            let r = sut::consensus_deserialize(&hex::decode(rh).ok()?).ok()?;
+            let c = sut::consensus_deserialize(&hex::decode(ch).ok()?).ok()?;
+            fn only_name_vs_opcode(printed: &V, real: &V, any: &mut bool) -> bool {
+                match (printed, real) {
+                    (V::A(p), V::A(q)) => {
+                        if p == q {
+                            return true;
+                        }
+                        let name = String::from_utf8_lossy(q).to_string();
+                        let hit = chialisp::classic::clvm::keyword_to_atom(2).get(&name).map(|op| op == p).unwrap_or(false);
+                        *any |= hit;
+                        hit
+                    }
+                    (V::P(a, b), V::P(c, d)) => only_name_vs_opcode(a, c, any) && only_name_vs_opcode(b, d, any),
+                    _ => false,
+                }
+            }
+            let mut any = false;
+            if only_name_vs_opcode(&r, &c, &mut any) && any {
+                return Some("printed-program-text-spells-computed-atoms-as-operator-names");
+            }
+            return None;
+        }
         let a = sut::consensus_deserialize(&hex::decode(det.get("library_hex")?.as_str()?).ok()?).ok()?;
         let b = sut::consensus_deserialize(&hex::decode(det.get("other_hex")?.as_str()?).ok()?).ok()?;
         if a != b && normalize_gensyms(&a) == normalize_gensyms(&b) {
             return Some("evaluator-com-leaks-let-bound-names");
+        }
+        // the leaked name may have been computed with (its digits are then not visible): the code is
+        // a function of the fresh-name counter and of nothing else, in a program where the
+        // evaluator's com is in play (cl22 sigil or a defconst)
+        let src = v.case.get("source").and_then(|s| s.as_str()).unwrap_or("");
+        if src.contains("*standard-cl-22*") || src.contains("(defconst ") {
+            if let Some(d) = crate::gen_lisp::MODERN.iter().copied().find(|d| src.contains(d.sigil())) {
+                let at = |n: usize| {
+                    chialisp::compiler::gensym::ARGNAME_CTR.store(n, std::sync::atomic::Ordering::SeqCst);
+                    sut::compile_lib(src, true, &[]).ok().map(|c| c.ser())
+                };
+                let _ = d;
+                let (a1, a2, b1) = (at(5000), at(5000), at(777_777));
+                if a1.is_some() && a1 == a2 && b1.is_some() && a1 != b1 {
+                    return Some("evaluator-com-leaks-let-bound-names");
+                }
+            }
         }
         None
     }
